@@ -5,8 +5,9 @@ when unstranded and never when stranded: rows of the two step tables, of find_li
 table, of both censoring tables and of compress_kmers_no_exts; the canonical-form tables for every k-mer type (min_rc_flip
 returns the smaller of the two strands and the flip flag, min_rc its first component, is_palindrome ⇔ K even ∧ self = rc);
 Exts::rc as an 8-bit lemma (sides swapped, bases complemented) and its use on flipped observations; flag plumbing: every
-public entry passes its `stranded` argument unchanged to the graph and to the worker, combine keeps it."""
-from .. import dt_tables, dt_graph, dt_filter, dt_compress, lemmas
+public entry passes its `stranded` argument unchanged to the graph and to the worker, combine keeps it (also when some
+shard graphs are empty); reverse-complemented views (the usual way to hand over an rc read) remap get / get_kmer / slice exactly."""
+from .. import dt_tables, dt_graph, dt_filter, dt_compress, dt_seq, lemmas
 from . import common
 
 ASSUMPTIONS = ["invariance of whole outputs under reverse-complementing reads is a relational fact and is not decided; the clauses above are its mechanisms"]
@@ -25,3 +26,5 @@ def run(F, rep):
     dt_graph.combine_table(F, rep, "C06.6")
     common.run_kmer_lemmas(F, rep, {"canon", "rc"})
     lemmas.exts_lemmas(F, rep)
+    # reads handed over as reverse-complemented views: the view's k-mers are the reverse complements of the substring's k-mers
+    dt_seq.slice_view_tables(F, rep, "C06.7")
